@@ -387,3 +387,17 @@ Qed.
 Lemma conform_req3_sound : forall d r ext, conform_req3 d r ext = true ->
   Conforming d /\ RequestConf r /\ ExtentsConf ext.
 Proof. intros d r ext H. rewrite conform_req3_eq in H. apply conform_req2_sound. exact H. Qed.
+
+(* ------------------------------------------------------------------ coupling completeness *)
+Definition IncidenceConf (inc : list (list nat * list nat)) : Prop :=
+  forall p, In p inc -> TagsConf (fst p) (snd p).
+
+Lemma conform_req4_sound : forall d r ext inc, conform_req4 d r ext inc = true ->
+  Conforming d /\ RequestConf r /\ ExtentsConf ext /\ IncidenceConf inc.
+Proof.
+  intros d r ext inc H. unfold conform_req4 in H. apply andb_true_iff in H. destruct H as [H1 H2].
+  destruct (conform_req3_sound d r ext H1) as [A [B C]].
+  split; [exact A|]. split; [exact B|]. split; [exact C|].
+  intros p Hp. unfold incidence_ok in H2. rewrite forallb_forall in H2.
+  apply tags_sound. apply (H2 p Hp).
+Qed.
